@@ -288,9 +288,19 @@ def run(tier, seed, t0):
     ids = [0, 1, 16, 17, 32] if tier == "quick" else list(range(0, 65))
     jobs = [(lambda n=n: ob_za(n)) for n in ids] + [lambda: ob_za(8191), lambda: ob_za(8192)]
     jobs += [ob_sign_raw, ob_algebra, ob_verify_complete] + [(lambda n=n: ob_sign_framing(n)) for n in ((0, 1, 16) if tier == "quick" else range(0, 40))]
-    res = run_parallel(jobs, nproc=12)
+    # the mod-n arithmetic the signing / verification equations are evaluated with (the L2 obligations of C11, run here as well:
+    # a fault in fn_add / fn_sub / fn_reduce / mont_mul mod n / the inversion exponent breaks conformance of r and s)
+    import c11
+    from arith import ob_binop_mod, ob_mont_mul
+    jobs += [lambda: ob_mont_mul(c11.CRATE, "fn64::mont_mul", c11.N2, "n"),
+             lambda: ob_binop_mod(c11.CRATE, "fn_add", c11.N2, lambda a, b: a + b, "fn_add"), lambda: ob_binop_mod(c11.CRATE, "fn_sub", c11.N2, lambda a, b: a - b, "fn_sub"),
+             lambda: ob_binop_mod(c11.CRATE, "fn_reduce", c11.N2, lambda a: a, "fn_reduce", 1, pre="any"),
+             lambda: c11.ob_pow("fn_pow", "SM2_N_MINUS_TWO", c11.N2 - 2, "(n-2)")]
+    import c11_l4
+    jobs = c11_l4.jobs(tier) + jobs      # [k]G and [t]P for every scalar (anchored in this property too)
+    res = run_parallel(jobs, nproc=14)
     return finish("C03", tier, seed, "model_checking", res, t0,
-                  assumptions=["mod-n and group layers uninterpreted in the data-flow obligations; their exactness is C11; Z_n as an abstract field in the algebra obligation",
+                  assumptions=["group layer uninterpreted in the data-flow obligations (its exactness is C11); the mod-n operations are uninterpreted there too and decided exact by the L2 obligations included in this check; Z_n as an abstract field in the algebra obligation",
                                "private key d in [1, n-2] (so that 1+d is invertible); 'other implementations accept it' is decided as conformance to the standard's equations",
                                "exact Annex A value: the Python reference reproduces it (setup self-test); the library's arithmetic equals the reference's by C11"],
                   explanation="ZA framing, digest framing, signing data-flow and retry conditions, and verification acceptance <=> standard conditions are decided on the MIR; "
